@@ -7,7 +7,9 @@ Case:
             | {"fn": "files", "targets": [file index..], "roots": [DIR..], "lookups": [DIR..], "allow_unreg": bool},
    "variants": [spelling name | MIX, ...] equivalent ways of passing the same arguments (must give the same outcome)
    "enum_seed": int                      seed of the shuffle applied to every directory enumeration
-   "hashseeds": [int..]                  (subset of cases) subprocess runs under these PYTHONHASHSEED values
+   "hashseeds": [int..]                  (subset of cases) subprocess runs under these PYTHONHASHSEED values; each result must equal the
+                                         result of this process and is judged by the oracle on its own ("hashseeds_essential": 1 = shrinking
+                                         keeps at least one of them: the case is about ties of a sort key, see gen_rollover)
    "perturb": {"idx": i, "file": FILE}   (C19) replace file i, read again -> "out2"
    "history": [{"call": CALL, "variant": spelling}, ...]   calls made BEFORE `call`, in this order, in the same process on the
                                          same tree (other roots - a directory inside a root or the directory above it -, other
@@ -28,7 +30,11 @@ Case:
   TEXT = {"g": bool (text does not parse), "gk": int, "secs": [{"stmts": [STMT..], "mode": MODE}] (two = service),
           "u": 1 | 2 | 3 (optional, with "g": true: the file cannot even be loaded - bytes that are not UTF-8, a truncated multi-byte
                sequence, a DIRECTORY named like a definition file)}
-  STMT = ["ref", name, major, minor] | ["prim", bits] | ["print", n] | ["bad", k];  MODE = ["sealed"] | ["extent", bits] | ["none"]
+  STMT = ["ref", name, major, minor] | ["prim", bits] | ["print", n] | ["bad", k] | ["mention", HOW, name, major, minor]
+         MODE = ["sealed"] | ["extent", bits] | ["none"]
+         a "mention" writes the versioned name of a definition WITHOUT referring to it: HOW = "line" (a comment line of its own), "doc" (a
+         comment line in front of the next attribute), "trail" (a comment after the statement of the previous line), "str" / "strcmp" (inside
+         string literals of an @assert that holds).  It means nothing: the Lean model never sees it (`model_case` drops it).
 
 Outcome: {"out": OUT, "out2": OUT?, "hist": [{"out": OUT, "nest": [..]}, ...] (one per history call), "inv": [descriptions of spellings / enumeration orders / hash seeds that changed the outcome],
           "nest": [nested types that differ from the stand-alone type]}
@@ -42,7 +48,10 @@ namespaces called like another root), gen_twins (names differing by letter case 
 gen_versions (version families; 40% with numbers of 1-3 digits and a port-ID that appears / disappears along the minor versions),
 gen_names (file-name shapes), gen_dirs / gen_dirs_universe (directory-argument sets, incl. namesakes nested inside a directory),
 gen_two_trees (several trees of one root namespace name holding the same relative paths, targets relative to working directories
-in and around them), gen_history (call sequences), gen_perturb (C19).
+in and around them), gen_history (call sequences), gen_perturb (C19), gen_samedir_twins (two files of one directory tree with one
+name and version, and references to them: C09), gen_rollover (versions at the ends of the range in pairs that lossy sort keys cannot tell
+apart - x.255 / (x+1).0 -, under several hash seeds: C10), ext_combo_name (file names with doubled / mixed / foreign extensions: C15),
+gen_mentions (definitions that merely MENTION others in comments and string literals: C19, C10).
 """
 from __future__ import annotations
 
@@ -85,6 +94,25 @@ def render_text(text: dict) -> str:
                 lines.append("@print %d" % st[1])
             elif k == "bad":
                 lines.append(BAD_LINES[(st[1] if len(st) > 1 else 0) % len(BAD_LINES)])
+            elif k == "mention":
+                vn = "%s.%d.%d" % (st[2], st[3], st[4])
+                how = st[1]
+                if how == "trail" and (lines[-1].startswith("#") or lines[-1] == "---"):
+                    how = "assert-trail"
+                if how == "line":
+                    lines.append("# supersedes %s (see there)" % vn)
+                elif how == "doc":
+                    lines.append("#   same encoding as %s" % vn)
+                elif how == "trail":
+                    lines[-1] += "  # like %s" % vn
+                elif how == "assert-trail":
+                    lines.append("@assert true # %s" % vn)
+                elif how == "str":
+                    lines.append('@assert "%s" != ""' % vn)
+                elif how == "strcmp":
+                    lines.append("@assert '%s' == \"%s\"  # cf. %s" % (vn, vn, vn))
+                else:
+                    raise ValueError(how)
             else:
                 raise ValueError(k)
         m = sec["mode"]
@@ -93,6 +121,18 @@ def render_text(text: dict) -> str:
         elif m[0] == "extent":
             lines.append("@extent %d" % m[1])
     return "\n".join(lines) + "\n"
+
+
+def without_mentions(f: dict) -> dict:
+    """The file as the model sees it: a name that is merely written in a comment or in a string literal is no statement at all."""
+    t = f["text"]
+    if not any(st[0] == "mention" for sec in t.get("secs", []) for st in sec["stmts"]):
+        return f
+    t2 = dict(t)
+    t2["secs"] = [{"stmts": [st for st in sec["stmts"] if st[0] != "mention"], "mode": sec["mode"]} for sec in t["secs"]]
+    f2 = dict(f)
+    f2["text"] = t2
+    return f2
 
 
 def is_def_file(fname: str) -> bool:
@@ -772,12 +812,17 @@ def run_on_tree(tmp: Path, case: dict) -> dict:
         o = one_call(tmp, case, v, "%s/%d" % (seed, k))
         if o is not None and hard(o) != hard(base):
             inv.append("spelling %s: %s" % (describe_variant(v), json.dumps(hard(o), sort_keys=True)[:300]))
+    under_seed: typing.List[list] = []
     for hs in case.get("hashseeds", []):
         o = subprocess_call(tmp, case, hs)
         if hard(o) != hard(base):
             inv.append("PYTHONHASHSEED=%s: %s" % (hs, json.dumps(hard(o), sort_keys=True)[:300]))
+        if o.get("res") == "ok":
+            under_seed.append([hs, hard(o)])
     res = {"out": hard(base), "inv": inv, "nest": base.get("_nest", []),
            "soft_cls": base.get("soft_cls"), "soft_path": base.get("soft_path"), "soft_msg": base.get("soft_msg")}
+    if under_seed:
+        res["soft_under_seed"] = under_seed   # (soft: the model has no hash seeds; the oracle judges each of these results on its own)
     if case.get("history"):
         res["hist"] = hist
     if case.get("perturb"):
@@ -1009,8 +1054,7 @@ def spec_eval(files: typing.List[dict], call: dict) -> dict:
                                 work.append(x)
     res["closure"] = clo
     res["near"] = near - clo
-    if len(set(keys)) != len(keys):
-        return fail("dupkey")
+    dupkey = len(set(keys)) != len(keys)
     memo: dict = {}
     allow_unreg = bool(call["allow_unreg"])
 
@@ -1063,6 +1107,23 @@ def spec_eval(files: typing.List[dict], call: dict) -> dict:
         memo[d.idx] = t
         return t
 
+    if dupkey:
+        # two TARGET files with one name and version (finding F9: what becomes of the pair itself is left to C10).  What C09 says about
+        # REFERENCES does not depend on that: if reading some OTHER target runs into a reference that is missing, cyclic, differs by
+        # letter case or has two candidates (e.g. the pair itself), that target cannot be read and the call must be rejected.
+        verdicts = []
+        for d in targets:
+            if keys.count(d.key) > 1:
+                continue   # (of the files of such a pair read_files keeps one, which one is not specified: only the other targets are sure to be read)
+            try:
+                ev(d, ())
+                verdicts.append("ok")
+            except Invalid as ex:
+                verdicts.append(ex.reason)
+            except Unspecified:
+                verdicts.append("unspecified")
+        res["dup_bad_ref"] = "refs" in verdicts and "unspecified" not in verdicts
+        return fail("dupkey")
     try:
         direct = [ev(d, ()) for d in sorted(targets, key=lambda d: (d.name, -d.major, -d.minor))]
     except Invalid as ex:
@@ -1495,6 +1556,38 @@ LENIENT = ["A.1_0.0.dsdl", "A.+1.0.dsdl", "A. 1.0.dsdl", "A.١.0.dsdl", "7_0_0_0
 IGNORED = ["A.1.0.dsdl.bak", "A.1.0.DSDL", "A.1.0.txt", "A.1.0.dsdl~", "README", "A.1.0.Uavcan"]
 
 
+# file names with more than one extension: every combination of the known extensions with each other and with foreign ones, after
+# stems that are well-formed on their own (with / without port-ID) or lack a field.  A name that ends in a known extension is a
+# definition file and is parsed - the last extension is dropped, what is left must be [<port-id>.]<ShortName>.<major>.<minor> exactly,
+# so an extension in front of the last one is one field too many; every other name is no definition file at all.
+KNOWN_EXTS = [".dsdl", ".uavcan"]
+FOREIGN_EXTS = [".txt", ".bak", ".DSDL", ".Uavcan", ".dsdl~", ".orig", ".d", ".dsdl_", ".uavcan2"]
+EXT_STEMS = ["A.1.0", "6200.Q.2.7", "Mixed.0.255", "A.1", "B"]
+
+
+def ext_combo_name(rng: random.Random, stem: typing.Optional[str] = None) -> str:
+    stem = stem or rng.choice(EXT_STEMS[:3] * 3 + EXT_STEMS[3:])
+    n = rng.choice([2, 2, 2, 2, 3])
+    if rng.random() < 0.5:
+        return stem + "".join(rng.choice(KNOWN_EXTS) for _ in range(n))      # known extensions only, in every order
+    exts = [rng.choice(KNOWN_EXTS * 3 + FOREIGN_EXTS) for _ in range(n)]
+    if not any(e in KNOWN_EXTS for e in exts):
+        exts[rng.randrange(n)] = rng.choice(KNOWN_EXTS)
+    return stem + "".join(exts)
+
+
+def ext_combo_universe() -> typing.List[str]:
+    out = []
+    for stem in EXT_STEMS[:2]:
+        for e1 in KNOWN_EXTS + FOREIGN_EXTS[:3]:
+            for e2 in KNOWN_EXTS + FOREIGN_EXTS[:3]:
+                if e1 in KNOWN_EXTS or e2 in KNOWN_EXTS:
+                    out.append(stem + e1 + e2)
+    out += ["A.1.0.dsdl.uavcan.dsdl", "A.1.0.uavcan.dsdl.uavcan", "A.1.0.uavcan.uavcan.dsdl", "A.1.uavcan.dsdl", "A.1.dsdl.uavcan", "A.uavcan.dsdl",
+            "6200.A.1.uavcan.dsdl", "1.0.uavcan.dsdl", "A.1.0..dsdl.dsdl", "A.1.0.uavcan..dsdl"]
+    return out
+
+
 def gen_names(rng: random.Random, prop: str) -> dict:
     """File-name shapes, directory depths and ways of designating roots and targets (C15)."""
     layout = [list(x) for x in rng.choice(ROOT_LAYOUTS)]
@@ -1516,8 +1609,10 @@ def gen_names(rng: random.Random, prop: str) -> dict:
             if d[-1] == "uavcan" and pid is not None:
                 pid = rng.choice([384, 400, 511] if is_srv else [7168, 7200, 8191])
             fn = fname_of(short, ma, mi, pid, rng.choice(["dsdl", "dsdl", "dsdl", "uavcan"]))
-        elif x < 0.93:
+        elif x < 0.89:
             fn = rng.choice(MALFORMED)
+        elif x < 0.93:
+            fn = ext_combo_name(rng)     # two or three extensions: a malformed definition file or no definition file at all
         elif x < 0.95:
             fn = rng.choice(LENIENT)
         else:
@@ -1886,6 +1981,262 @@ def gen_twins(rng: random.Random, prop: str) -> dict:
     return {"files": files, "call": call, "enum_seed": rng.randrange(10**6)}
 
 
+def gen_samedir_twins(rng: random.Random, prop: str) -> dict:
+    """Two or three different FILES inside ONE root namespace directory tree that denote the same full name and version - one with
+    and one without a fixed port-ID, two different port-IDs, the current and the legacy extension - with equal or different
+    contents, in the root of the namespace or nested, in a lookup directory / in the referrers' own tree / among the targets,
+    and REFERENCES to that name and version: relative and absolute, from targets and from dependencies of targets, through
+    read_namespace and read_files.  Such a reference has two candidates and must be rejected (C09).  Controls: the second file carries
+    another version (no pair at all), the pair is never referred to, a reference to a version nobody has.
+
+    (What becomes of such a pair when both files are TARGETS is finding F9 and is judged - as a known finding - under C10 only.)"""
+    T = ["w0", "alpha"]
+    home = rng.choice([T, T, ["w0", "lib"], ["w1", "lib"], ["w1", "vendor"]])
+    layout = [T] if home == T else [T, home]
+    sub = list(rng.choice([[], [], ["x"], ["x", "y"], ["nav"]]))
+    short = rng.choice(TWIN_SHORTS)
+    v = rng.choice([(1, 0), (1, 0), (1, 1), (0, 1), (2, 0), (1, 10), (0, 255), (255, 0)])
+    unreg = rng.random() < 0.4
+    pids = rng.sample([7000, 7001, 100, 0, 8191] if unreg else [6200, 6201, 6300, 7167], 2)
+    kind = rng.choice(["pid+none", "pid+none", "pid+pid", "ext", "ext", "ext+pid", "three"])
+    e1, e2 = rng.choice([("dsdl", "uavcan"), ("dsdl", "uavcan"), ("uavcan", "dsdl")])
+    same_ext = rng.choice(["dsdl", "dsdl", "dsdl", "uavcan"])
+    if kind == "pid+none":
+        spell = [(None, same_ext), (pids[0], same_ext)]
+    elif kind == "pid+pid":
+        spell = [(pids[0], same_ext), (pids[1], same_ext)]
+    elif kind == "ext":
+        q = rng.choice([None, None, pids[0]])
+        spell = [(q, e1), (q, e2)]
+    elif kind == "ext+pid":
+        spell = [(None, e1), (pids[0], e2)]
+    else:
+        spell = [(None, "dsdl"), (pids[0], "dsdl"), (rng.choice([None, pids[1]]), "uavcan")]
+    rng.shuffle(spell)
+    control = rng.random() < 0.2     # the second file is ANOTHER version: there is no pair, every exact reference is fine
+    files: typing.List[dict] = []
+    types_l: typing.Set[str] = set()
+
+    def full(d, sub_, short_):
+        return ".".join([d[-1]] + list(sub_) + [short_])
+
+    def add(d, sub_, short_, ver, stmts, pid=None, ext="dsdl"):
+        files.append({"dir": list(d), "sub": list(sub_), "fname": fname_of(short_, ver[0], ver[1], pid, ext), "text": mk_text(stmts, ["sealed"])})
+        types_l.add(full(d, sub_, short_).lower())
+        return len(files) - 1
+
+    same_text = rng.random() < 0.5
+    pair: typing.List[int] = []
+    for k, (pid, ext) in enumerate(spell):
+        ver = v
+        if control and k >= 1:
+            ver = (v[0] + 1, 0) if v[0] < 255 else (v[0] - 1, 7)
+            pid = None if (pid is not None and any(q == pid for q, _ in spell[:k])) else pid
+        pair.append(add(home, sub, short, ver, [["prim", 8 if same_text else 8 * (k + 1)]] + ([["print", 900 + k]] if rng.random() < 0.3 else []), pid, ext))
+    other_v = [parse_strict(files[i]["fname"])[2:] for i in pair]
+    # bystanders
+    for d, sub_, short_ in rng.sample([(home, sub, "Other"), (home, [], "Zed"), (T, [], "Plain"), (home, sub + ["deep"], "Leaf"), (T, ["u"], "Side")], rng.randint(0, 3)):
+        if full(d, sub_, short_).lower() not in types_l:
+            add(d, sub_, short_, (1, 0), [["prim", 8]])
+    fn = rng.choice(["ns", "ns", "files"])
+    dep_home = [x for x in layout if x != T] or [["w0", "beta"]]
+    tops: typing.List[int] = []
+    names = ["User", "aUser", "Hub", "M", "zTop", "B", "_u"]
+    rng.shuffle(names)
+    lonely = rng.random() < 0.1      # nobody refers to the pair
+    for q in range(0 if lonely else rng.choice([1, 1, 2, 3])):
+        x = rng.random()
+        rv = tuple(v) if x < 0.8 else tuple(rng.choice(other_v)) if x < 0.93 else (v[0], (v[1] + 5) % 256)
+        via_dep = rng.random() < 0.4
+        same_ns = rng.random() < 0.45
+        top_dir = T if fn == "ns" else rng.choice(layout)
+        if via_dep:
+            w_dir = home if same_ns else rng.choice(dep_home)
+        else:
+            w_dir = home if (same_ns and (fn == "files" or home == T)) else top_dir
+        w_sub = list(sub) if (w_dir == home and same_ns) else list(rng.choice([[], ["u"]]))
+        ref_name = short if (w_dir == home and w_sub == list(sub) and rng.random() < 0.7) else full(home, sub, short)
+        w_short = names[q] + ("Dep" if via_dep else "")
+        if full(w_dir, w_sub, w_short).lower() in types_l:
+            continue
+        w = add(w_dir, w_sub, w_short, (1, 0), [["ref", ref_name, rv[0], rv[1]]] + ([["prim", 8]] if rng.random() < 0.5 else []))
+        if not via_dep:
+            tops.append(w)
+            continue
+        u_short = names[q] + "Top"
+        if full(top_dir, [], u_short).lower() in types_l:
+            continue
+        tops.append(add(top_dir, [], u_short, (1, 0), [["ref", full(w_dir, w_sub, w_short), 1, 0]]))
+    for d in dep_home:
+        if d not in layout and any(f["dir"] == d for f in files):
+            layout.append(d)
+    if not tops:
+        tops.append(add(T, [], "Solo", (1, 0), [["prim", 8]]))
+    others = [d for d in layout if d != T]
+    if fn == "ns":
+        rng.shuffle(others)
+        call = {"fn": "ns", "root": list(T), "lookups": [list(x) for x in others], "allow_collision": True, "allow_unreg": unreg}
+    else:
+        tix = rng.sample(tops, rng.randint(1, len(tops))) if rng.random() < 0.4 else list(tops)
+        if rng.random() < 0.2:
+            tix += rng.sample(pair, rng.randint(1, len(pair)))   # one file of the pair, or all of them, requested as well
+            rng.shuffle(tix)
+        roots = _uniq([list(files[i]["dir"]) for i in tix])
+        rest = [list(d) for d in [T] + others if list(d) not in roots]
+        rng.shuffle(rest)
+        cut = rng.randint(0, len(rest))
+        roots += rest[:cut]
+        rng.shuffle(roots)
+        call = {"fn": "files", "targets": tix, "roots": roots, "lookups": rest[cut:], "allow_unreg": unreg}
+    return {"files": files, "call": call, "enum_seed": rng.randrange(10**6)}
+
+
+def samedir_twin_features(case: dict) -> typing.Iterable[str]:
+    """Files of one directory tree that denote one (name, version), and the references to them."""
+    call = case["call"]
+    dirs = call_dirs(call) + ([list(case["files"][i]["dir"]) for i in call["targets"]] if call["fn"] == "files" else [])
+    defs = [d for d in (SDef(i, f) for i, f in enumerate(case["files"]) if is_def_file(f["fname"])) if d.wellformed and d.dir in dirs]
+    groups: typing.Dict[tuple, typing.List[SDef]] = {}
+    for d in defs:
+        groups.setdefault((tuple(d.dir), d.key), []).append(d)
+    tset = set(call["targets"]) if call["fn"] == "files" else {d.idx for d in defs if d.dir == list(call["root"])}
+    for (_, key), g in groups.items():
+        if len(g) < 2:
+            continue
+        yield "same-directory-twins:%d-files" % min(len(g), 3)
+        pidset = {d.pid for d in g}
+        exts = {d.f["fname"].rsplit(".", 1)[1] for d in g}
+        yield "same-directory-twins:" + ("+".join(sorted(["with-and-without-port-id"] * (None in pidset and len(pidset) > 1) + ["different-port-ids"] * (len(pidset - {None}) > 1)
+                                                          + ["both-extensions"] * (len(exts) > 1))) or "same-port-id-and-extension?")
+        yield "same-directory-twins:" + ("nested" if g[0].f["sub"] else "at-the-root-of-the-namespace")
+        n_t = len([d for d in g if d.idx in tset])
+        yield "same-directory-twins:" + ("all-are-targets" if n_t == len(g) else "one-is-a-target" if n_t else "none-is-a-target")
+        yield "same-directory-twins:texts-" + ("equal" if all(d.text == g[0].text for d in g) else "differ")
+        hit = False
+        for d in defs:
+            if d.text.get("g"):
+                continue
+            for sec in d.text["secs"]:
+                for st in sec["stmts"]:
+                    if st[0] == "ref" and ((st[1] if "." in st[1] else d.ns + "." + st[1]), st[2], st[3]) == key:
+                        hit = True
+                        yield "same-directory-twins:referenced-%s-from-a-%s" % ("absolutely" if "." in st[1] else "relatively", "target" if d.idx in tset else "dependency")
+        if not hit:
+            yield "same-directory-twins:never-referenced"
+
+
+# pairs of versions (M, m) < (M', m') that a LOSSY encoding of the pair into one number / one string maps to the same value:
+# radix R instead of 256 (M * R + m: x.R+k and (x+1).k - the roll-over pair x.255 / (x+1).0 for R = 255), the decimal digits written
+# one after the other (1.23 / 12.3), the sum, the greater of the two.  Under such a key the two tie and keep their arrival order.
+def fold_pairs(rng: random.Random) -> typing.List[typing.Tuple[tuple, tuple]]:
+    x = rng.choice([0, 0, 1, 1, 2, 9, 127, 253, 254, 254])
+    R = rng.choice([255, 255, 255, 255, 255, 254, 200, 128, 100, 16, 10])
+    k = rng.choice([0, 0, 0, 1, 255 - R])
+    out = [((x, R + k), (x + 1, k))]
+    y = rng.random()
+    if y < 0.12:
+        out.append(rng.choice([((1, 23), (12, 3)), ((1, 10), (11, 0)), ((2, 55), (25, 5)), ((1, 0), (10, 0)), ((0, 10), (1, 0))]))
+    elif y < 0.2:
+        out.append(rng.choice([((1, 2), (2, 1)), ((0, 255), (255, 0)), ((1, 255), (255, 1)), ((0, 1), (1, 0)), ((254, 255), (255, 254))]))
+    return out
+
+
+def gen_rollover(rng: random.Random, prop: str) -> dict:
+    """Version numbers at the ends of their range (0, 1, 254, 255): for one type name both the LAST minor version of a major version
+    and the FIRST version of the next one (x.255 / (x+1).0) and their neighbours (x.254, (x+1).1), further pairs that lossy
+    encodings of (major, minor) cannot tell apart (`fold_pairs`), several names, the families in the target namespace and / or
+    pulled in as dependencies (order of `transitive`); read_namespace and read_files with the targets listed in any order; most
+    cases are repeated in child interpreters under several PYTHONHASHSEED values: newest first, always, in every run (C10)."""
+    A, B = ["w0", "alpha"], ["w0", rng.choice(["beta", "lib"])]
+    files: typing.List[dict] = []
+    fams: typing.List[typing.Tuple[list, list, str, list]] = []
+    shorts = rng.sample(SHORTS + ["Dep", "Node"], rng.choice([1, 2, 2, 3]))
+    two_dirs = rng.random() < 0.6
+    for si, short in enumerate(shorts):
+        d = B if (two_dirs and si == len(shorts) - 1) else A
+        sub = list(rng.choice([[], [], ["x"], ["x", "z"]]))
+        vs: typing.List[tuple] = []
+        for _ in range(rng.choice([1, 1, 2, 3])):
+            for a, b in fold_pairs(rng):
+                vs += [a, b]
+                if rng.random() < 0.3:
+                    vs.append((a[0], a[1] - 1) if a[1] >= 1 and a[0] + a[1] > 1 else (b[0], b[1] + 1))
+                if rng.random() < 0.3 and b[1] < 255:
+                    vs.append((b[0], b[1] + 1))
+        for _ in range(rng.choice([0, 1, 2])):
+            vs.append((rng.choice([0, 1, 2, 254, 255]), rng.choice([0, 1, 2, 254, 255])))
+        vs = [u for u in _uniq(vs) if u[0] + u[1] > 0 and u[0] <= 255 and u[1] <= 255]
+        rng.shuffle(vs)
+        bits = rng.choice([8, 16, 32])
+        for u in vs:
+            files.append({"dir": list(d), "sub": sub, "fname": fname_of(short, u[0], u[1], None, "uavcan" if rng.random() < 0.1 else "dsdl"),
+                          "text": mk_text([["prim", bits]], ["sealed"])})
+        fams.append((d, sub, short, vs))
+    # a definition that depends on every version of a family (all of them become `transitive` of read_files)
+    users: typing.List[int] = []
+    for d, sub, short, vs in fams:
+        if rng.random() < 0.6:
+            name = ".".join([d[-1]] + sub + [short])
+            refs = [["ref", name, u[0], u[1]] for u in vs]
+            rng.shuffle(refs)
+            files.append({"dir": list(A), "sub": [], "fname": fname_of("Uses" + short.capitalize().replace("_", ""), 1, 0), "text": mk_text(refs, ["sealed"])})
+            users.append(len(files) - 1)
+    layout = [A] + ([B] if any(f["dir"] == B for f in files) else [])
+    x = rng.random()
+    if x < 0.45:
+        call = {"fn": "ns", "root": list(A), "lookups": [list(z) for z in layout[1:]], "allow_collision": True, "allow_unreg": False}
+    else:
+        if users and x < 0.75:
+            tix = list(users)     # the families only as dependencies
+            for i in rng.sample(range(len(files)), rng.choice([0, 0, 1, 2])):
+                if i not in tix:
+                    tix.append(i)
+        else:
+            cand = list(range(len(files)))
+            tix = rng.sample(cand, rng.randint(max(1, len(cand) // 2), len(cand)))
+        rng.shuffle(tix)
+        roots = _uniq([list(files[i]["dir"]) for i in tix])
+        rest = [list(z) for z in layout if list(z) not in roots]
+        cut = rng.randint(0, len(rest))
+        roots += rest[:cut]
+        rng.shuffle(roots)
+        call = {"fn": "files", "targets": tix, "roots": roots, "lookups": rest[cut:], "allow_unreg": False}
+    case = {"files": files, "call": call, "enum_seed": rng.randrange(10**6)}
+    add_variants(rng, case, 1)
+    case["hashseeds"] = rng.sample([0, 1, 2, 3, 4, 5, 7, 42, 1234, 99999, 31337, 2**31], rng.choice([2, 3, 3]))
+    case["hashseeds_essential"] = 1
+    return case
+
+
+def rollover_features(case: dict) -> typing.Iterable[str]:
+    yield from sorted(set(_rollover_features(case)))
+
+
+def _rollover_features(case: dict) -> typing.Iterable[str]:
+    defs = [d for d in (SDef(i, f) for i, f in enumerate(case["files"]) if is_def_file(f["fname"])) if d.wellformed]
+    fams: typing.Dict[str, typing.List[SDef]] = {}
+    for d in defs:
+        fams.setdefault(d.name, []).append(d)
+    for g in fams.values():
+        vs = {(d.major, d.minor) for d in g}
+        for (ma, mi) in vs:
+            if mi == 255 and (ma + 1, 0) in vs:
+                yield "versions:roll-over-pair-x.255/(x+1).0" + (":x=%d" % ma if ma in (0, 254) else "")
+            for R in (254, 200, 128, 100, 16, 10):
+                if mi >= R and (ma + 1, mi - R) in vs:
+                    yield "versions:pair-that-ties-under-radix-%d" % R
+            for (mb, mj) in vs:
+                if (ma, mi) < (mb, mj):
+                    if "%d%d" % (ma, mi) == "%d%d" % (mb, mj):
+                        yield "versions:pair-with-equal-concatenated-digits"
+                    if ma + mi == mb + mj:
+                        yield "versions:pair-with-equal-sum"
+        if any(255 in v for v in vs):
+            yield "versions:255"
+        if any(254 in v for v in vs):
+            yield "versions:254"
+
+
 def twin_features(case: dict) -> typing.Iterable[str]:
     """Names that differ by letter case only among the definitions the call can see, and what sorts between them."""
     dirs = call_dirs(case["call"]) + ([list(case["files"][i]["dir"]) for i in case["call"]["targets"]] if case["call"]["fn"] == "files" else [])
@@ -2146,6 +2497,158 @@ def gen_perturb(rng: random.Random, case: dict) -> None:
     case["perturb"] = {"idx": idx, "file": new}
 
 
+MENTION_HOWS = ["line", "doc", "trail", "trail", "trail", "str", "str", "strcmp"]
+
+
+def gen_mentions(rng: random.Random, prop: str, perturb: bool = True) -> dict:
+    """Texts that MENTION other definitions without referring to them (C19): the exact versioned name of a definition that exists in
+    the lookup set - absolute, or relative when it lives in the writer's namespace - written in a comment line, in the comment in
+    front of an attribute, in a comment behind a statement, or inside string literals of an @assert; written in a target or in a real
+    dependency of a target; the mentioned definition in a lookup directory or (read_files) in the targets' own root namespace, alone
+    or with dependencies of its own, a @print, a second version, a same-directory twin.  Controls: the name in another letter case,
+    a version nobody has, a definition that IS in the closure.  The mentioned definition is outside the dependency closure: it is
+    then replaced by a text in every state of badness (`perturb`), or is bad from the start (perturb = False: the expected result is
+    the one computed without it, its dependencies are nobody's `transitive`)."""
+    T = ["w0", "alpha"]
+    L = [rng.choice(["w0", "w1"]), rng.choice(["lib", "lib", "vendor"])]
+    fn = rng.choice(["ns", "files", "files"])
+    files: typing.List[dict] = []
+    used: typing.Set[str] = set()
+
+    def full(d, sub, short):
+        return ".".join([d[-1]] + list(sub) + [short])
+
+    def add(d, sub, short, v, stmts, pid=None, ext="dsdl", mode=None):
+        files.append({"dir": list(d), "sub": list(sub), "fname": fname_of(short, v[0], v[1], pid, ext), "text": mk_text(stmts, mode or ["sealed"])})
+        used.add(full(d, sub, short).lower())
+        return len(files) - 1
+
+    def where(i):
+        f = files[i]
+        return f["dir"], f["sub"], parse_strict(f["fname"])
+
+    # the closure: Top -> Dep (-> Leaf), possibly a second target
+    d_dir, d_sub = rng.choice([(L, []), (L, ["x"]), (T, ["x"]), (T, [])])
+    inside: typing.List[int] = []
+    dep_stmts: typing.List[list] = [["prim", 8]]
+    if rng.random() < 0.4:
+        leaf = add(L, ["x"], "Leaf", (1, 2), [["prim", 16]] + ([["print", 11]] if rng.random() < 0.3 else []))
+        inside.append(leaf)
+        dep_stmts.append(["ref", full(L, ["x"], "Leaf"), 1, 2])
+    dep = add(d_dir, d_sub, "Dep", (1, 0), dep_stmts + ([["print", 12]] if rng.random() < 0.3 else []))
+    inside.append(dep)
+    tops = [add(T, [], "Top", (1, 0), [["ref", full(d_dir, d_sub, "Dep"), 1, 0], ["prim", 8]] + ([["print", 13]] if rng.random() < 0.3 else []))]
+    if rng.random() < 0.35:
+        tops.append(add(T, d_sub if d_dir == T else ["u"], "Hub", (2, 1), [["ref", "Dep" if d_dir == T else full(d_dir, d_sub, "Dep"), 1, 0]]))
+    inside += tops
+    # definitions outside the closure
+    spots = [(L, []), (L, ["x"]), (L, ["old", "v1"]), (L, ["y"])] + ([(T, ["x"]), (T, []), (T, ["attic"])] if fn == "files" else [])
+    outs: typing.List[int] = []
+    for q in range(rng.choice([1, 1, 2, 3])):
+        o_dir, o_sub = rng.choice(spots)
+        short = ["Legacy", "Old", "Draft"][q]
+        v = rng.choice([(1, 0), (1, 0), (0, 1), (2, 3), (1, 10), (255, 255), (0, 255)])
+        stmts: typing.List[list] = [["prim", rng.choice([8, 16])]]
+        if rng.random() < 0.45:
+            part = add(o_dir, o_sub, short + "Part", (1, 0), [["prim", 16]] + ([["print", 20 + q]] if rng.random() < 0.3 else []))
+            stmts.append(["ref", rng.choice([short + "Part", full(o_dir, o_sub, short + "Part")]), 1, 0])
+            del part
+        if rng.random() < 0.3:
+            stmts.append(["print", 30 + q])
+        pid = rng.choice([None, None, None, 6200 + q])
+        outs.append(add(o_dir, o_sub, short, v, stmts, pid, "uavcan" if rng.random() < 0.1 else "dsdl"))
+        y = rng.random()
+        if y < 0.15 and v[1] < 255:
+            add(o_dir, o_sub, short, (v[0], v[1] + 1), list(stmts), pid)           # a second version (same layout)
+        elif y < 0.25:
+            add(o_dir, o_sub, short, v, [["prim", 8]], (pid + 10) if pid is not None else 6300 + q)   # a same-directory twin: the name is not unique
+    # the mentions
+    mentioned: typing.List[int] = []
+    for _ in range(rng.choice([1, 1, 2, 3])):
+        w = rng.choice(inside)
+        w_dir, w_sub, _p = where(w)
+        x = rng.random()
+        o = rng.choice(outs if x < 0.92 else inside)
+        o_dir, o_sub, op = where(o)
+        name = op[1] if ([w_dir[-1]] + list(w_sub) == [o_dir[-1]] + list(o_sub) and rng.random() < 0.6) else full(o_dir, o_sub, op[1])
+        ver = (op[2], op[3])
+        if x < 0.78 or x >= 0.92:
+            if o in outs:
+                mentioned.append(o)
+        elif x < 0.85:
+            name = (name[: -len(op[1])] + swap_case(op[1])) if rng.random() < 0.6 else name.swapcase()
+        else:
+            ver = (op[2], (op[3] + 1) % 256)
+        st = ["mention", rng.choice(MENTION_HOWS), name, ver[0], ver[1]]
+        stmts = files[w]["text"]["secs"][0]["stmts"]
+        stmts.insert(rng.randint(0, len(stmts)), st)
+    layout = [T] + ([L] if any(f["dir"] == L for f in files) else [])
+    unreg = False
+    if fn == "ns":
+        call = {"fn": "ns", "root": list(T), "lookups": [list(x) for x in layout[1:]], "allow_collision": True, "allow_unreg": unreg}
+    else:
+        tix = list(tops)
+        if rng.random() < 0.15:
+            tix.append(dep)
+        rng.shuffle(tix)
+        roots = _uniq([list(files[i]["dir"]) for i in tix])
+        rest = [list(x) for x in layout if list(x) not in roots]
+        cut = rng.randint(0, len(rest))
+        call = {"fn": "files", "targets": tix, "roots": roots + rest[:cut], "lookups": rest[cut:], "allow_unreg": unreg}
+    case = {"files": files, "call": call, "enum_seed": rng.randrange(10**6), "variants": []}
+    victim = rng.choice(mentioned) if mentioned and rng.random() < 0.85 else rng.choice(outs)
+    f = files[victim]
+    t = json.loads(json.dumps(f["text"]))
+    spoil_text(rng, t, victim, True)
+    if perturb:
+        case["perturb"] = {"idx": victim, "file": {"dir": f["dir"], "sub": f["sub"], "fname": f["fname"], "text": t}}
+    elif rng.random() < 0.6:
+        f["text"] = t
+    return case
+
+
+def mention_features(case: dict) -> typing.Iterable[str]:
+    call = case["call"]
+    defs = [SDef(i, f) for i, f in enumerate(case["files"]) if is_def_file(f["fname"])]
+    good = [d for d in defs if d.wellformed]
+    tset = set(call["targets"]) if call["fn"] == "files" else {d.idx for d in defs if d.dir == list(call["root"])}
+    exp = None
+    for d in good:
+        if d.text.get("g"):
+            continue
+        for sec in d.text["secs"]:
+            for st in sec["stmts"]:
+                if st[0] != "mention":
+                    continue
+                if exp is None:
+                    exp = spec_eval(case["files"], call)
+                yield "mention:" + {"line": "comment-line", "doc": "comment-in-front-of-an-attribute", "trail": "comment-behind-a-statement", "str": "string-literal", "strcmp": "string-literals+comment"}[st[1]]
+                yield "mention:" + ("relative-name" if "." not in st[2] else "absolute-name")
+                yield "mention:written-in-a-" + ("target" if d.idx in tset else "dependency" if d.idx in exp["closure"] else "definition-outside-the-closure")
+                fullname = st[2] if "." in st[2] else d.ns + "." + st[2]
+                hit = [x for x in good if x.name == fullname and (x.major, x.minor) == (st[3], st[4])]
+                if not hit:
+                    yield "mention:of-" + ("a-name-in-another-letter-case" if any(x.name.lower() == fullname.lower() for x in good) else "nothing-that-exists")
+                    if any(x.name == fullname for x in good):
+                        yield "mention:of-a-version-nobody-has"
+                    continue
+                yield "mention:of-a-definition-" + ("inside-the-closure" if any(x.idx in exp["closure"] or x.idx in tset for x in hit) else "outside-the-closure")
+                if len(hit) > 1:
+                    yield "mention:of-a-name-defined-twice"
+                for x in hit:
+                    if x.idx in exp["closure"] or x.idx in tset:
+                        continue
+                    yield "mention:outside:" + ("in-the-targets'-own-root-namespace" if any(x.dir == defs_dir for defs_dir in [case["files"][i]["dir"] for i in tset]) else "in-a-lookup-directory")
+                    if not x.text.get("g") and any(s2[0] == "ref" for sc in x.text["secs"] for s2 in sc["stmts"]):
+                        yield "mention:outside:has-dependencies-of-its-own"
+                    if case.get("perturb") and case["perturb"]["idx"] == x.idx:
+                        yield "mention:outside:is-the-replaced-definition"
+                    elif not case.get("perturb"):
+                        t = x.text
+                        bad = t.get("g") or any(s2[0] == "bad" or (s2[0] == "ref" and s2[1] == "nowhere.Missing") for sc in t["secs"] for s2 in sc["stmts"]) or any(sc["mode"][0] == "none" for sc in t["secs"])
+                        yield "mention:outside:text-" + ("broken" if bad else "fine")
+
+
 # ------------------------------------------------------------------------------------------------ the suite
 
 DIR_ERRORS = ("NestedRootNamespaceError", "RootNamespaceNameCollisionError")
@@ -2186,17 +2689,28 @@ class NsSuite(common.Suite):
                 if x >= 0.95:
                     out.append(gen_two_trees(rng, prop))
                     continue
-                c = (gen_dirs(rng, prop) if x < 0.15 else gen_dirs_universe(rng, prop)) if x < 0.3 else gen_twins(rng, prop) if x >= 0.91 else gen_graph(rng, prop)
-                if 0.3 <= x < 0.91 and rng.random() < 0.08:
+                if x >= 0.915:
+                    out.append(gen_rollover(rng, prop))     # (brings its own spellings and hash seeds)
+                    continue
+                if x >= 0.9:
+                    c = gen_mentions(rng, prop, perturb=False)
+                    add_variants(rng, c, 1)
+                    out.append(c)
+                    continue
+                c = (gen_dirs(rng, prop) if x < 0.15 else gen_dirs_universe(rng, prop)) if x < 0.3 else gen_twins(rng, prop) if x >= 0.87 else gen_graph(rng, prop)
+                if 0.3 <= x < 0.87 and rng.random() < 0.08:
                     gen_history(rng, c)
                 add_variants(rng, c, 3)
             elif prop == "C19":
-                c = gen_graph(rng, prop) if x < 0.75 else gen_versions(rng, prop) if x < 0.87 else gen_twins(rng, prop)
+                if x >= 0.9:
+                    out.append(gen_mentions(rng, prop))     # (brings its own replacement)
+                    continue
+                c = gen_graph(rng, prop) if x < 0.68 else gen_versions(rng, prop) if x < 0.79 else gen_twins(rng, prop)
                 gen_perturb(rng, c)
                 c["variants"] = []
             else:
-                c = gen_graph(rng, prop) if x < 0.8 else gen_twins(rng, prop)
-                if x < 0.8 and rng.random() < 0.08:
+                c = gen_graph(rng, prop) if x < 0.72 else gen_twins(rng, prop) if x < 0.88 else gen_samedir_twins(rng, prop)
+                if x < 0.72 and rng.random() < 0.08:
                     gen_history(rng, c)
                 add_variants(rng, c, 2)
             out.append(c)
@@ -2349,6 +2863,14 @@ class NsSuite(common.Suite):
                 out.append(ns([F(A, [], fn, S())], variants=[]))
             for fn in MALFORMED:
                 out.append(ns([F(A, [], fn, S()), F(A, [], "Z.1.0.dsdl", S())], variants=[]))
+            # doubled / mixed / foreign extensions (small scope, exhaustive), through read_namespace and as a target of read_files;
+            # extension words as short names are ordinary names
+            for k, fn in enumerate(ext_combo_universe()):
+                if is_def_file(fn) and k % 2:
+                    out.append(fl([F(A, ["sub"], fn, S()), F(A, [], "Z.1.0.dsdl", S())], [0], [A], variants=("names", "relcwd", "relnoroots")))
+                else:
+                    out.append(ns([F(A, ["sub"], fn, S()), F(A, [], "Z.1.0.dsdl", S())], variants=[]))
+            out.append(ns([F(A, [], "dsdl.1.0.uavcan", S()), F(A, [], "6200.uavcan.1.0.dsdl", S()), F(A, ["x", "uavcan_dsdl"], "Uavcan.1.0.dsdl", S()), F(A, [], "Dsdl.2.0.uavcan", S(["ref", "alpha.dsdl", 1, 0]))], variants=["rel"]))
             out.append(ns([F(A, ["bad.dir"], "A.1.0.dsdl", S())], variants=[]))
             out.append(ns([F(["w0", "al.pha"], [], "A.1.0.dsdl", S())], root=["w0", "al.pha"], variants=[]))
             # both ends of the port-ID ranges, with and without the flag that admits unregulated port-IDs
@@ -2423,9 +2945,9 @@ class NsSuite(common.Suite):
                 shutil.rmtree(tmp, ignore_errors=True)
 
     def model_case(self, case):
-        c = {"id": case["id"], "files": case["files"], "call": case["call"]}
+        c = {"id": case["id"], "files": [without_mentions(f) for f in case["files"]], "call": case["call"]}
         if case.get("perturb"):
-            c["perturb"] = case["perturb"]
+            c["perturb"] = {"idx": case["perturb"]["idx"], "file": without_mentions(case["perturb"]["file"])}
         return c
 
     @staticmethod
@@ -2481,6 +3003,16 @@ class NsSuite(common.Suite):
             if d is not None:
                 head, _, tail = d.partition(":")
                 return "%s:%s [call %d of %d made in one process on the same tree: %s]" % (head, tail, k + 1, len(hist) + 1, _s(sc["call"], 240))
+        if prop in ("C09", "C10", "C15"):
+            # what a child interpreter returned under a given PYTHONHASHSEED is a result like any other (and, unlike the result of
+            # this process, the same in every run: a replay reproduces it)
+            for hs, o in impl.get("soft_under_seed") or []:
+                d = self.oracle_one(case, {"out": o, "inv": [], "nest": []}, prop)
+                if d is not None:
+                    head, _, tail = d.partition(":")
+                    if not head.startswith(prop + "/"):
+                        return d    # (a recorded finding keeps its signature)
+                    return "%s/under-a-given-hash-seed:%s [in a child interpreter with PYTHONHASHSEED=%s]" % (head, tail, hs)
         d = self.oracle_one(case, impl, prop)
         if d is not None and hist:
             d += " [last of %d calls made in one process on the same tree]" % (len(hist) + 1)
@@ -2507,6 +3039,8 @@ class NsSuite(common.Suite):
             return "%s/outcome-depends-on-spelling-order-or-seed: %s" % (prop, impl["inv"][0])
         fname_excuse = exp["lookup_malformed"] and res == "invalid" and cls == "FileNameFormatError"
         if reason == "dupkey":
+            if prop == "C09" and exp.get("dup_bad_ref") and res != "invalid":
+                return "C09/bad-reference-not-rejected: outcome %s" % _s(out)
             if prop != "C10" or res == "invalid":
                 return None
             if res == "ok":
@@ -2623,10 +3157,17 @@ class NsSuite(common.Suite):
                 c = dict(case)
                 c["variants"] = case["variants"][:k] + case["variants"][k + 1:]
                 yield c
-        if case.get("hashseeds"):
+        if case.get("hashseeds") and not case.get("hashseeds_essential"):
             c = dict(case)
             c.pop("hashseeds")
             yield c
+        elif len(case.get("hashseeds") or []) > 1:
+            # the runs under given hash seeds are what the case is about (ties of a sort key): down to ONE seed, never to none -
+            # whether THIS process shows the failure is a matter of its own, random, hash seed, and a replay could not repeat it
+            for hs in case["hashseeds"]:
+                c = dict(case)
+                c["hashseeds"] = [hs]
+                yield c
         for k, v in enumerate(case.get("variants") or []):
             if not isinstance(v, dict):
                 continue
@@ -2702,6 +3243,18 @@ class NsSuite(common.Suite):
                         yield "stmt:bad"
             if f["fname"].endswith(".uavcan"):
                 yield "ext:uavcan"
+            nexts = 0
+            rest = f["fname"]
+            while True:
+                e = next((e for e in KNOWN_EXTS + FOREIGN_EXTS if rest.endswith(e)), None)
+                if e is None:
+                    break
+                nexts, rest = nexts + 1, rest[: -len(e)]
+            if nexts >= 2:
+                known = [e for e in KNOWN_EXTS if e in f["fname"]]
+                yield "name:%d-extensions:%s" % (min(nexts, 3), "definition-file" if is_def_file(f["fname"]) else "not-a-definition-file")
+                if len(known) == 2:
+                    yield "name:both-known-extensions:" + ("legacy-first" if f["fname"].endswith(".dsdl") else "legacy-last")
             if is_def_file(f["fname"]) and parse_strict(f["fname"]) is None:
                 yield "name:malformed"
             elif is_def_file(f["fname"]) and parse_strict(f["fname"])[0] is not None:
@@ -2768,6 +3321,9 @@ class NsSuite(common.Suite):
         if case.get("hashseeds"):
             yield "hashseed-subprocess"
         yield from twin_features(case)
+        yield from samedir_twin_features(case)
+        yield from rollover_features(case)
+        yield from mention_features(case)
         yield from version_features(case)
         if call["fn"] == "files":
             rn = [r[-1] for r in call["roots"]]
